@@ -7,6 +7,9 @@ Rules are written against this normal form, so that two spellings of the same co
       first thing, outside any nested scope / conditional sub-expression, with no other occurrence of `t` in the
       function                                                                  ==   that statement with E for `t`
 
+  N3  nested ifs   `if a: if b: X` (no else on either)                          ==   `if a and b: X`
+  N4  negations    `not (a and b)` / `not (a or b)` / `not not a` in tests      ==   `not a or not b` / `not a and not b` / `a`
+
 are the same tree for every rule.  Both rewrites preserve behaviour; line numbers of the surviving nodes are kept, so
 reports still point at the real source lines."""
 from __future__ import annotations
@@ -200,9 +203,56 @@ def _inline_temps(fn) -> int:
     return count
 
 
+def _merge_nested_ifs(fn) -> int:
+    """N3: `if a: if b: X` (neither has an else, the inner if is the whole body) -> `if a and b: X`."""
+    count, changed = 0, True
+    while changed:
+        changed = False
+        for n in ast.walk(fn):
+            if isinstance(n, ast.If) and not n.orelse and len(n.body) == 1 and isinstance(n.body[0], ast.If) and not n.body[0].orelse:
+                inner = n.body[0]
+                vals = (n.test.values if isinstance(n.test, ast.BoolOp) and isinstance(n.test.op, ast.And) else [n.test]) + \
+                       (inner.test.values if isinstance(inner.test, ast.BoolOp) and isinstance(inner.test.op, ast.And) else [inner.test])
+                n.test = ast.copy_location(ast.BoolOp(op=ast.And(), values=list(vals)), n.test)
+                n.body = inner.body
+                count += 1
+                changed = True
+    return count
+
+
+def _nnf(fn) -> int:
+    """N4: in the tests of if / while / assert / conditional expressions, negations are pushed through and/or
+    (`not (a and b)` -> `not a or not b`, `not (a or b)` -> `not a and not b`, `not not a` -> `a`); same truth value,
+    same evaluation order, same short-circuit."""
+    count = 0
+
+    def push(e, negate):
+        nonlocal count
+        if isinstance(e, ast.UnaryOp) and isinstance(e.op, ast.Not):
+            if negate or isinstance(e.operand, (ast.BoolOp, ast.UnaryOp)):
+                if isinstance(e.operand, ast.BoolOp) or negate or (isinstance(e.operand, ast.UnaryOp) and isinstance(e.operand.op, ast.Not)):
+                    count += 1
+                    return push(e.operand, not negate)
+            return e if not negate else e.operand
+        if isinstance(e, ast.BoolOp):
+            op = e.op
+            if negate:
+                op = ast.Or() if isinstance(e.op, ast.And) else ast.And()
+            return ast.copy_location(ast.BoolOp(op=op, values=[push(v, negate) for v in e.values]), e)
+        if negate:
+            return ast.copy_location(ast.UnaryOp(op=ast.Not(), operand=e), e)
+        return e
+    for n in ast.walk(fn):
+        if isinstance(n, (ast.If, ast.While, ast.Assert, ast.IfExp)):
+            n.test = push(n.test, False)
+    return count
+
+
 def normalise(tree: ast.AST) -> dict:
-    stats = {"unelse": 0, "inlined_temporaries": 0}
+    stats = {"unelse": 0, "inlined_temporaries": 0, "merged_ifs": 0, "negations_pushed": 0}
     for fn in [n for n in ast.walk(tree) if isinstance(n, (ast.FunctionDef, ast.AsyncFunctionDef))]:
         stats["unelse"] += _unelse(fn)
         stats["inlined_temporaries"] += _inline_temps(fn)
+        stats["merged_ifs"] += _merge_nested_ifs(fn)
+        stats["negations_pushed"] += _nnf(fn)
     return stats
